@@ -78,6 +78,36 @@ for i, sch in enumerate(["{type: string, enum: ['']}", "{type: string, enum: [nu
                          "{type: object, properties: {a: {type: string}}, required: [a, b]}", "{type: object, maxProperties: 1, additionalProperties: true}", "{oneOf: [{type: string}, {type: string, format: uuid}]}",
                          "{anyOf: [{type: string}, {type: integer}]}", "{allOf: [{type: string}, {type: integer}]}", "{type: array, items: {}, minItems: 1}", "{}", "{nullable: true}"]):
     P.append(("hostschema_%d" % i, api(op("/s", "s", "X"), "    X: %s\n" % sch)))
+# 15. parameters of one operation whose Go field names collide directly or after the location prefix is added
+import itertools
+def param(name, loc):
+    return "        - {name: %s, in: %s, required: %s, schema: {type: string}}\n" % (json.dumps(name), loc, "true" if loc == "path" else "false")
+for i, plist in enumerate(list(itertools.permutations([("path_id", "query"), ("id", "query"), ("id", "path")])) +
+                          [[("query_x", "header"), ("x", "query"), ("x", "header")], [("x", "header"), ("x", "query"), ("query_x", "header")], [("id", "path"), ("id", "query"), ("id", "header"), ("id", "cookie")],
+                           [("PathID", "query"), ("id", "path"), ("id", "query")], [("a-b", "query"), ("a_b", "query")], [("a-b", "query"), ("a_b", "header")]]):
+    P.append(("paramcoll%d" % i, api(op("/x/{id}" if any(n == "id" and l == "path" for n, l in plist) else "/x", "getItem", params="".join(param(n, l) for n, l in plist)))))
+# 16. objects with every combination of declared / additional / pattern properties, alone and with a side oneOf
+k = 0
+for props in ("", "properties: {a: {type: string}}, "):
+    for addl in ("", "additionalProperties: {type: integer}, ", "additionalProperties: true, ", "additionalProperties: false, "):
+        for pat in ("", "patternProperties: {'^x-': {type: string}}, ", "patternProperties: {'^x-': {type: string}, '^y-': {type: integer}}, "):
+            for side in ("", "oneOf: [{type: object, properties: {k: {type: string}}, required: [k]}, {type: object, properties: {n: {type: integer}}, required: [n]}], "):
+                P.append(("objcombo%d" % k, api(op("/o", "o", "X"), "    X: {type: object, %s%s%s%s}\n" % (props, addl, pat, side))))
+                k += 1
+# 17. recursion through every wrapper: optional / required / nullable member, array, map, oneOf, allOf, object with a side oneOf
+for i, sch in enumerate([
+    "    Node: {type: object, properties: {child: {$ref: '#/components/schemas/Wrapper'}}}\n    Wrapper: {type: object, oneOf: [{$ref: '#/components/schemas/Node'}, {$ref: '#/components/schemas/Leaf'}]}\n    Leaf: {type: object, required: [v], properties: {v: {type: string}}}\n",
+    "    Node: {type: object, required: [child], properties: {child: {$ref: '#/components/schemas/Wrapper'}}}\n    Wrapper: {type: object, oneOf: [{$ref: '#/components/schemas/Node'}, {$ref: '#/components/schemas/Leaf'}]}\n    Leaf: {type: object, required: [v], properties: {v: {type: string}}}\n",
+    "    Node: {type: object, properties: {child: {oneOf: [{$ref: '#/components/schemas/Node'}, {type: string}]}}}\n",
+    "    Node: {type: object, properties: {kids: {type: array, items: {$ref: '#/components/schemas/Node'}}, m: {type: object, additionalProperties: {$ref: '#/components/schemas/Node'}}}}\n",
+    "    Node: {type: object, properties: {n: {$ref: '#/components/schemas/Node', nullable: true}}}\n",
+    "    Node: {allOf: [{type: object, properties: {a: {type: string}}}, {type: object, properties: {next: {$ref: '#/components/schemas/Node'}}}]}\n",
+    "    Node: {type: object, properties: {a: {$ref: '#/components/schemas/B'}}}\n    B: {type: object, properties: {c: {$ref: '#/components/schemas/C'}}}\n    C: {type: object, properties: {n: {$ref: '#/components/schemas/Node'}}}\n",
+    "    Node: {type: array, items: {$ref: '#/components/schemas/Node'}}\n",
+    "    Node: {type: object, additionalProperties: {$ref: '#/components/schemas/Node'}}\n",
+    "    Node: {oneOf: [{type: array, items: {$ref: '#/components/schemas/Node'}}, {type: string}]}\n",
+]):
+    P.append(("recur%d" % i, api(op("/n", "n", "Node"), sch)))
 FEATURES = {}
 fs = open(os.path.join(os.path.dirname(os.path.abspath(__file__)), "spec_features.yml")).read()
 for name, (en, dis) in {
